@@ -101,7 +101,9 @@ FAMILIES["C05"] = dict(
     level_text=("AstReadOnly and Repeatable are an action property and an invariant of the system specification JApi; TLC proves them for every history of up to 4 API calls over 2 expressions and a program pool with a chain, "
                 "a transform and registry lookups, and shows that the named deviations (the chain operator rewriting the parsed call, a transform writing through, a registry alias) violate them. The specification is bound to the code by "
                 "trace validation of seeded API histories (TraceApi: Compile/Register/Eval/SetDoc interleaved over 3 expressions x 3 documents, incl. other expressions calling the same built-ins in between) and by a second and third "
-                "evaluation on the same Expr after every replayed case (same input; another input in between), with the hook-projected Expr.node and String() compared after every Eval."),
+                "evaluation on the same Expr after every replayed case (same input; another input in between), with the hook-projected Expr.node and String() compared after every Eval. "
+                "Order check: a sample of the cases (all directed ones: programs that denote the same thing in different spellings, and calls through aliases) is evaluated by one process in file order and by another in reverse order, twice; "
+                "an outcome (including the function name an argument error carries) that differs between the orders both times is reported as order-dependent unless the program may vary."),
     level_note=_TOTAL_NOTE + " Sanctioned variation ($random, $shuffle, clock, member order, error choice in object constructors) is excluded by a syntactic MayVary predicate in the trace specification.",
 )
 FAMILIES["C07"] = dict(
@@ -217,7 +219,7 @@ FAMILIES["C17"] = dict(
     v=[dict(profile="rx", n={"quick": 6000, "thorough": 120000})],
     level_text=("The regular-expression engine is an environment of the specification: each recorded step carries, for every regex literal of the program and every string it can be applied to, the match list the engine reported (checked for well-formedness by JRegex!WellFormedMatches). "
                 "Everything the port builds on it is specified in TLA+ (JRegex/JEval): match objects and the `next` chain, $match with limit, $contains, $split, $replace with the $N/$0/$$ template rule and with a replacement function, limits, context defaulting; the scanner and grammar specifications cover the literal syntax (\\/, bracket depth, flags). "
-                "TLC checks the template rule's laws and enumerates every template of <= 4 (5) units over {$,0,1,2,x} plus two-digit forms against patterns with 0/1/2/3/12 groups, and every function form over 8 patterns x 10 subjects x 6 limits; seeded patterns from a grammar (classes, alternation, nested/optional groups, quantifiers, anchors, every flag subset) x subjects <= 12 x templates x limits are validated the same way."),
+                "TLC checks the template rule's laws and enumerates every template of <= 4 (5) units over {$,0,1,2,x} plus two-digit forms against patterns with 0/1/2/3/12 groups, and every function form over 8 patterns x 10 subjects x 6 limits; seeded patterns from a grammar (classes, alternation, nested/optional groups, quantifiers, anchors, every flag subset) x subjects <= 12 x templates x limits are validated the same way. MC_C17R enumerates 44 pattern texts (empty, well-formed, malformed in every way RE2 distinguishes) x 9 flag sets x 9 places a literal can stand; whether the engine accepts the text is recorded as environment and a literal with an empty or rejected pattern must be a compile error."),
     level_note=_SEM_NOTE + " That RE2 itself finds the leftmost non-overlapping matches is assumed (environment); the recorded match lists come from Go's regexp applied to the pattern text the parser extracted.",
 )
 
